@@ -329,6 +329,148 @@ def gen_args(rng, tier):
     return '%s %s' % (header(net, wk, pub, rng.choice([800000, 800000, 0, 123456])), ' '.join(ops))
 
 
+CODE = {'bitcoinlib_test': 'TST', 'bitcoin': 'BTC', 'litecoin': 'LTC'}       # currency codes (frozen here)
+
+
+def form_tok(rng, net, script, n, how, sym=None):
+    """recipient token script:amount:change:form; the text names exactly n smallest units"""
+    import props.c17 as c17
+    if how in 'svSV':
+        if sym is None:
+            sym = rng.choice(['', '', '', '', 'sat', 'm', 'm', 'µ'])
+        r = rng.random()
+        # without a currency code the library reads the text in its default network (bitcoin)
+        code = CODE[net] if (r < 0.8 or sym != '' or net != 'bitcoin') else ''
+        text = c17.amount_str(n, sym, code, ' ', trim=rng.random() < 0.8).strip()
+        if sym == 'sat' and net == 'bitcoin' and rng.random() < 0.5:
+            text = '%d sat' % n
+        return '%s:%d:0:%s%s' % (script.hex(), n, how, text.encode('utf8').hex())
+    if how in 'If':
+        return '%s:%d:0:%s' % (script.hex(), n, how)
+    return '%s:%d:0' % (script.hex(), n)
+
+
+def pick_amount(rng, hi):
+    """decimal amounts whose binary64 quotient by 1e-8 lies just below / above a whole number: k/100, k/1000, k/10 of the
+    main unit, random 8-decimal amounts, amounts one unit around them"""
+    r = rng.random()
+    if r < 0.3:
+        n = rng.randrange(1, 1000) * 10 ** 6
+    elif r < 0.5:
+        n = rng.randrange(1, 10000) * 10 ** 5
+    elif r < 0.55:
+        n = rng.randrange(1, 100) * 10 ** 7
+    elif r < 0.9:
+        n = rng.randrange(1000, 10 ** 9)
+    else:
+        n = rng.choice([29000000, 57000000, 58000000, 112681006, 203489073, 851872643, 115000000, 1001, 100000000])
+    while n >= hi:
+        n //= 10
+    return max(n, 1001)
+
+
+def gen_amounts(rng, tier):
+    """family 4: the recipient amount in every accepted form (int, whole float, value string with / without denominator
+    symbol and currency code, Value object; inside (address, amount) tuples and inside Output objects) through send_to /
+    send / transaction_create"""
+    net, wk = rng.choice(HKINDS)
+    lim = B().LIMITS[net]
+    o = good_oracle(rng, lim)
+    fee = typical_fee(lim)
+    n = rng.randrange(2, 5)
+    items = [(i, 10 ** 9 + rng.randrange(10 ** 8), rng.choice([1, 3, 10]), rng.randrange(min(nkeys(wk), 2))) for i in range(n)]
+    ops = [op_update(rng.choice('px'), rng.choice(['N', '0']), 0, items)]
+    for _ in range(rng.randrange(1, 4)):
+        via = rng.choice(['t', 's', 's', 'c'])
+        nrec = 1 if via == 't' else rng.choice([1, 1, 2, 3])
+        toks = []
+        for _j in range(nrec):
+            how = rng.choice(['s', 's', 's', 'v', 'v', 'f', 'i'] if via == 't' else ['s', 's', 's', 'v', 'v', 'S', 'V', 'I', 'f', 'i'])
+            toks.append(form_tok(rng, net, B().rand_script(rng, net), pick_amount(rng, 4 * 10 ** 8), how))
+        kw = dict(fee=rng.choice(['none', 'i%d' % fee, 'i%d' % (3 * fee)]), k=rng.choice([1, 1, 2, 0]), shuf=rng.randrange(2),
+                  minc=rng.choice([0, 1]))
+        if via == 'c':
+            ops.append(op_create(';'.join(toks), o, **kw))
+        else:
+            bc = rng.randrange(2)
+            ops.append(op_send(';'.join(toks), o, bc=bc, via=via, **kw))
+            if bc and rng.random() < 0.6:
+                ops.append(op_update('x', 'N', 0, [(i, v, c + 1, k) for (i, v, c, k) in items]))
+    return '%s %s' % (header(net, wk), ' '.join(ops))
+
+
+def gen_conflict(rng, tier):
+    """family 5: CONFLICTING stored transactions: two (three) broadcast transactions spend the same output (the second is
+    built with an explicit input list, replace-by-fee), then transaction_delete / WalletTransaction.delete / bumpfee of
+    either one in both orders, listings and re-opening in between, then creations that need the contested output"""
+    hk = [x for x in HKINDS if x[1].split(',')[1] == '0']
+    net, wk = rng.choice(hk if rng.random() < 0.85 else HKINDS)
+    ms = wk.split(',')[1] == '1'
+    lim = B().LIMITS[net]
+    o = good_oracle(rng, lim)
+    fee = typical_fee(lim)
+    n = rng.randrange(3, 6)
+    lo = 200 * max(lim[0], 1000, fee)
+    items = [(i, B().logu(rng, lo, 50 * lo), rng.choice([1, 2, 3, 6, 10]), rng.randrange(min(nkeys(wk), 2))) for i in range(n)]
+    ops = [op_update(rng.choice('px'), rng.choice(['N', '0']), rng.randrange(2), items)]
+    contested = rng.sample(items, rng.randrange(1, 3))
+    rest = [x for x in items if x not in contested]
+
+    def spend(pick, mul, rbf=1, bc=1):
+        tot = sum(x[1] for x in pick)
+        inp = ','.join('%d:%s:N:N' % (x[0], rng.choice(['2', '2', 'o'])) for x in pick)
+        return op_send(tok_outs(rng, net, [max(1, int(tot * rng.uniform(0.2, 0.8)))]), o, inputs=inp, fee='i%d' % (mul * fee),
+                       k=rng.choice([1, 1, 2]), bc=bc, rbf=rbf, shuf=rng.randrange(2))
+    stored = []
+    # the original
+    r = rng.random()
+    if r < 0.6:
+        ops.append(spend(contested, 1))
+    else:
+        # automatic selection that needs everything
+        tot = sum(x[1] for x in items)
+        ops.append(op_send(tok_outs(rng, net, [int(tot * 0.9)]), o, fee='i%d' % fee, bc=1, rbf=1, minc=0))
+    stored.append(len(ops) - 1)
+    if rng.random() < 0.2:
+        ops.append(rng.choice(['r', op_update('x', 'N', 0, items)]))
+    # the conflicting one(s)
+    for j in range(rng.choice([1, 1, 1, 2])):
+        r = rng.random()
+        pick = list(contested) if r < 0.5 else (contested[:1] + rng.sample(rest, min(len(rest), 1)) if r < 0.8 else
+                                                 contested + rng.sample(rest, min(len(rest), 1)))
+        ops.append(spend(pick, 2 + j))
+        stored.append(len(ops) - 1)
+    if not ms and rng.random() < 0.25:
+        ops.append('b~0~%d~1' % B().logu(rng, 300, 5000))          # replaces the transaction stored LAST
+        stored.append(len(ops) - 1)
+    order = list(stored)
+    if rng.random() < 0.6:
+        order.sort()                                                # the one stored FIRST goes first
+    else:
+        rng.shuffle(order)
+    total = sum(x[1] for x in items)
+    for p_ in order[:rng.randrange(1, len(order) + 1)] + ([rng.choice(stored)] if rng.random() < 0.15 else []):
+        ops.append('d~%d~%s' % (p_, rng.choice('wo')))
+        r = rng.random()
+        if r < 0.3:
+            ops.append(op_update(rng.choice('px'), rng.choice(['N', '0']), rng.randrange(2), items))
+        elif r < 0.4:
+            ops.append('r')
+        r = rng.random()
+        bc = 1 if rng.random() < 0.3 else 0
+        if r < 0.45:
+            amount = int(total * rng.uniform(0.55, 0.97))
+            ops.append(op_send(tok_outs(rng, net, [amount]), o, fee=rng.choice(['none', 'i%d' % fee]), minc=rng.choice([0, 1]),
+                               bc=bc, k=rng.choice([1, 2]), via=rng.choice('st')))
+        elif r < 0.8:
+            ops.append(op_sweep(1, tok_outs(rng, net, [0]), o, fee=rng.choice(['none', 'i%d' % (3 * fee)]), minc=rng.choice([0, 1]), bc=bc))
+        else:
+            ops.append(op_create(tok_outs(rng, net, [int(total * rng.uniform(0.3, 0.9))]), o, fee='i%d' % fee, minc=rng.choice([0, 1])))
+        if bc:
+            stored.append(len(ops) - 1)
+    return '%s %s' % (header(net, wk), ' '.join(ops))
+
+
 def gen_hist_cases(rng, tier, allow_unknown, allow_ms_bump=False):
     from core import Case
     n1, n2, n3 = (1500, 1500, 2500) if tier == 'thorough' else (70, 70, 120)
@@ -345,6 +487,17 @@ def gen_hist_cases(rng, tier, allow_unknown, allow_ms_bump=False):
         cs.append(Case('hist', gen_shapes(rng, tier, allow_unknown)))
     for _ in range(n3):
         cs.append(Case('hist', gen_args(rng, tier)))
+    n4, n5 = (1500, 1200) if tier == 'thorough' else (60, 50)
+    # amounts written as decimal text whose binary64 quotient by 1e-8 falls just below the whole number
+    t1, t2 = '0.29 TST'.encode().hex(), '570000 µTST'.encode().hex()
+    cs.append(Case('hist', 'hist bitcoinlib_test S,0,1,1,0 0 800000 u~x~N~0~0:1000000000:10:0;1:1000000000:10:1 '
+                           's~%s:29000000:0:s%s~N~i10000~1~N~1~-~N~0~0~0~33333,33333,0,0,-~33333,33333,0,0,-~0~0~t '
+                           'c~%s:57000000:0:V%s;%s:851872643:0:v%s~N~i10000~1~N~1~-~N~0~0~0~33333,33333,0,0,-'
+                           % (w, t1, w, t2, '0014' + '22' * 20, '8.51872643 TST'.encode().hex())))
+    for _ in range(n4):
+        cs.append(Case('hist', gen_amounts(rng, tier)))
+    for _ in range(n5):
+        cs.append(Case('hist', gen_conflict(rng, tier)))
     return cs
 
 
@@ -358,8 +511,14 @@ def model_req_hist(c, side):
     for pos, tok in enumerate(t[5:]):
         f = tok.split('~')
         k = f[0]
+        if k in ('c', 's') and f[1] != '-':
+            f[1] = ';'.join(':'.join(x.split(':')[:3]) for x in f[1].split(';'))      # the model gets the exact amounts
+        if k == 'w':
+            f[2] = ';'.join(':'.join(x.split(':')[:3]) for x in f[2].split(';'))
         if k == 'c':
             out.append('~'.join(f[:11] + f[12:]))
+        elif k == 'd':
+            out.append('d~%s' % f[1])
         elif k == 's':
             sg = '1' if (pub == '0' or f[15] == '1') else '0'
             out.append('~'.join(f[:11] + [f[12], f[13], f[14], sg]))
@@ -533,6 +692,34 @@ class Books:
             self.unspent.discard(op)
 
 
+def amount_text(form):
+    return bytes.fromhex(form[1:]).decode('utf8')
+
+
+def exact_amount(x):
+    """(script, exact number of smallest units requested, denominator symbol or None) of one recipient token
+    script:amount:change[:form]; for the textual forms the amount is computed HERE from the text (decimal / Fraction
+    arithmetic, frozen unit table of harness/props/c17.py), the integer field is not consulted"""
+    p = x.split(':')
+    if len(p) > 3 and p[3] and p[3][0] in 'svSV':
+        import props.c17 as c17
+        text = amount_text(p[3])
+        q = c17.exact_units(text)
+        if q is None or q.denominator != 1:
+            raise ValueError('amount text %r does not denote a whole number of units' % text)
+        return p[0], int(q), c17._unit_symbol(text)
+    return p[0], int(p[1]), None
+
+
+def den_class_known(sym):
+    """the denominator symbol belongs to a float class recorded for C17 (class decision of harness/props/c17.py)"""
+    if not sym:
+        return False
+    import props.c17 as c17
+    cid = c17.CLASS_OF_SYM.get(sym)
+    return cid is not None and 'den_' + cid in c17.KNOWN_CLASSES and c17.known_status('den_' + cid) == 'known'
+
+
 def _items(tok):
     if tok == '-':
         return []
@@ -593,10 +780,6 @@ def _violated_hist(c, io):
                 acct = (0 if f[8] == 'N' else int(f[8]))
                 pushed = d.get('pushed') == '1'
                 wch = set(ex.get('wchange', '-').split(','))
-                if k == 'w':
-                    recips = None
-                else:
-                    recips = [(x.split(':')[0], int(x.split(':')[1])) for x in f[1].split(';')] if f[1] != '-' else []
                 if pushed:
                     own = [((txid, n), v) for n, (v, sc) in enumerate(routs) if sc in wch]
                     bk.broadcast(txid, [(a, n) for (a, n, _) in rins], own, acct)
@@ -609,6 +792,21 @@ def _violated_hist(c, io):
                                 outs=[(v, sc) for (v, sc) in routs], wch=wch, ins=[(a, n) for (a, n, _) in rins])
         elif k in ('s', 'w'):
             last = last        # a refused request leaves the previous object with the caller
+        elif k == 'd':
+            if main == 'D':
+                txid = ex.get('txid')
+                if txid not in bk.live:
+                    bad.append(('delete', where + 'the wallet deleted transaction %s which it never broadcast' % str(txid)[:12]))
+                # the outputs this transaction consumed are released unless ANOTHER stored transaction spends them too
+                bk.replace(txid)
+                if last is not None and last['txid'] == txid:
+                    last = None
+            elif main == 'NOTX':
+                txid = ex.get('txid')
+                if txid and txid in bk.live:
+                    bad.append(('delete', where + 'transaction %s is stored, the wallet says it is not found' % txid[:12]))
+            else:
+                bad.append(('delete', where + 'transaction_delete answered %s' % main[:60]))
         elif k == 'b':
             if main.startswith('OK ') and last is not None:
                 bad += _judge_bump(bk, f, main, ex, where, last, dust)
@@ -769,7 +967,7 @@ def _judge_tx(bk, k, f, main, ex, where, net, wk, pub, bcount, dust, fmin, fmax,
     if any(v < 0 or v >= 2 ** 63 for v, _ in routs):
         bad.append(('negative_output', where + 'output value out of range'))
     if k == 'w':
-        tg = [(x.split(':')[0], int(x.split(':')[1])) for x in f[2].split(';')]
+        tg = [exact_amount(x)[:2] for x in f[2].split(';')]
         rest = list(have)
         if f[1] == '1':
             if len(have) != 1 or have[0][0] != tg[0][0]:
@@ -788,13 +986,20 @@ def _judge_tx(bk, k, f, main, ex, where, net, wk, pub, bcount, dust, fmin, fmax,
                 else:
                     bad.append(('recipients', where + 'sweep output %s:%d was not requested' % (s[:12], v)))
     else:
-        want = [(x.split(':')[0], int(x.split(':')[1])) for x in f[1].split(';')] if f[1] != '-' else []
+        want3 = [exact_amount(x) for x in f[1].split(';')] if f[1] != '-' else []
+        want = [(sc, v) for (sc, v, sym) in want3]
         others = list(have)
-        for sv in want:
-            if sv in others:
-                others.remove(sv)
+        for (sc, v, sym), x in zip(want3, f[1].split(';') if f[1] != '-' else []):
+            if (sc, v) in others:
+                others.remove((sc, v))
+            elif sym is not None:
+                paid = [pv for (ps, pv) in others if ps == sc]
+                bad.append(('amount_den_known' if den_class_known(sym) else 'recipients',
+                            where + 'requested %r = %d for %s, the transaction pays %r' % (amount_text(x.split(':')[3]), v, sc[:12], paid)))
+                if paid:
+                    others.remove((sc, paid[0]))          # the same fact is not reported again as an unrequested output
             else:
-                bad.append(('recipients', where + 'requested output %s:%d missing' % (sv[0][:12], sv[1])))
+                bad.append(('recipients', where + 'requested output %s:%d missing' % (sc[:12], v)))
         for s, v in others:
             if s not in wch:
                 bad.append(('recipients', where + 'extra output %s:%d does not pay a change key of this wallet' % (s[:12], v)))
